@@ -4,7 +4,7 @@ import RsslVerif.Gen.ElabTables
 /-!
 # Model of expression elaboration, extended language (typer/src/typer/expressions.rs)
 
-Same development as `Model/Elab.lean` (which stays untouched: C04 composes with it) over a larger source language, in its
+Same development as `Model/Elab.lean` (C04 composes with that one) over a larger source language, in its
 **own namespace** `RsslVerif.Model.ElabX`.  New source forms (`parse_expr_unchecked`):
 
 * `member e name` — `ast::Expression::Member`: on a struct the data member of that name (`StructMember`), on a scalar the
@@ -25,7 +25,7 @@ open RsslVerif.Gen.RankTable RsslVerif.Gen.TypingTables RsslVerif.Gen.ElabTables
 open RsslVerif.Model.IrTyping (FuncSig opReturn boolOf)
 open RsslVerif.Model.IrTypingX
 open RsslVerif.Model.Elab (Err boolR intR minusFolds enforceIncrement unwrapPanic nvRank nvIsInteger arithTarget
-  mostSigScalar ternTargets candsFrom)
+  arithScalar isOutputParam mostSigScalar ternTargets candsFrom)
 
 mutual
 /-- fragment of `ast::Expression` -/
@@ -114,26 +114,110 @@ def castOperand (onFail : Err) (e : IExpr) (τ inp : ETy) : Except Err IExpr :=
   | .ok none => .error onFail
   | .ok (some c) => applyConv c e
 
+/-! ## written places (`check_mutable_place`, fixes 4575004 / b359800 / 3758fdd) -/
+
+/-- `TypeRegistry::is_const`: `get_non_array_layer(id)` is a `Modifier` layer with `is_const` — arrays are looked through
+    (`const float a[3]` is `Array(Modifier(const, float), 3)`), an outer modifier is not.  `fuel` bounds the number of array
+    layers (`none` = ran out: only for an environment whose array definitions are cyclic, which no `TypeRegistry` is) -/
+def isConstTy (Γ : Env) : Nat → Ty → Option Bool
+  | 0, _ => none
+  | fuel + 1, t =>
+    if t.mod ≠ {} then some t.mod.isConst else
+    match t.layer with
+    | .other id =>
+      match Γ.others[id]? with
+      | some (.array elem _) => isConstTy Γ fuel elem
+      | _ => some false
+    | _ => some false
+
+/-- enough fuel for every acyclic environment: one array definition per step -/
+def constFuel (Γ : Env) : Nat := Γ.others.length + 1
+
+/-- `get_type_layer(remove_modifier(ty)).is_object()` -/
+def isObjectTy (Γ : Env) : Layer → Bool
+  | .other id =>
+    match Γ.others[id]? with
+    | some .object => true
+    | some (.resource _ _) => true
+    | _ => false
+  | _ => false
+
+/-- one iteration of the loop of `check_mutable_place` up to `current = match current`: the type the IR gives `current`
+    must be an lvalue and not const; `k` is the rest of the loop -/
+def placeStep (Γ : Env) (e : IExpr) (k : Unit → Except Err Unit) : Except Err Unit :=
+  match typeOf Γ e with
+  | .error _ => .error (.reject "InternalError")
+  | .ok τ =>
+    if τ.vt ≠ .lvalue then .error (.reject "LvalueRequired") else
+    match isConstTy Γ (constFuel Γ) τ.ty with
+    | none => .error (.unsupported "cyclic array type")
+    | some true => .error (.reject "MutableRequired")
+    | some false => k ()
+
+/-- `check_mutable_place`: every object on the way from the written part to the variable must be a mutable lvalue.  The loop
+    walks through `StructMember`, `Swizzle`, `MatrixSwizzle` (and `ObjectMember`, outside the model) to their object, through
+    `ArraySubscript` unless the subscripted value is a buffer / texture (its elements are not part of the value of the
+    resource variable), and stops at any other node (`ConstantVariable`, a member of a cbuffer, is outside the model). -/
+def checkMutablePlace (Γ : Env) : IExpr → Except Err Unit
+  | .member o sid idx => placeStep Γ (.member o sid idx) fun _ => checkMutablePlace Γ o
+  | .swizzle o slots => placeStep Γ (.swizzle o slots) fun _ => checkMutablePlace Γ o
+  | .mswizzle o slots => placeStep Γ (.mswizzle o slots) fun _ => checkMutablePlace Γ o
+  | .index o i => placeStep Γ (.index o i) fun _ =>
+    match typeOf Γ o with
+    | .error _ => .error (.reject "InternalError")
+    | .ok τo => if isObjectTy Γ τo.ty.layer then .ok () else checkMutablePlace Γ o
+  | .lit k => placeStep Γ (.lit k) fun _ => .ok ()
+  | .var i => placeStep Γ (.var i) fun _ => .ok ()
+  | .tern c a b => placeStep Γ (.tern c a b) fun _ => .ok ()
+  | .seq a b => placeStep Γ (.seq a b) fun _ => .ok ()
+  | .call f args => placeStep Γ (.call f args) fun _ => .ok ()
+  | .cast t e => placeStep Γ (.cast t e) fun _ => .ok ()
+  | .op o args => placeStep Γ (.op o args) fun _ => .ok ()
+  | .ctor t ar args => placeStep Γ (.ctor t ar args) fun _ => .ok ()
+
+/-- `check_output_arguments`: the arguments given for `out` / `inout` parameters — **after** `apply_casts` — must name
+    mutable objects; `zip` stops at the shorter list (default arguments) -/
+def checkOutArgs (Γ : Env) : List Param → IArgs → Except Err Unit
+  | p :: ps, .cons e r =>
+    if isOutputParam p.io then
+      match checkMutablePlace Γ e with
+      | .error m => .error m
+      | .ok _ => checkOutArgs Γ ps r
+    else checkOutArgs Γ ps r
+  | _, _ => .ok ()
+
 /-- `parse_expr_unaryop` after the operand has been elaborated -/
-def elabUn (o : UnOp) (e : IExpr) (τ : ETy) : Res :=
+def elabUn (Γ : Env) (o : UnOp) (e : IExpr) (τ : ETy) : Res :=
   let unmodR : ETy := τ.ty.unmod.r
   match o with
   | .prefixIncrement =>
     match enforceIncrement τ with
     | .error m => .error m
-    | .ok _ => .ok ((.op .prefixIncrement (.cons e .nil)), τ)
+    | .ok _ =>
+      match checkMutablePlace Γ e with
+      | .error m => .error m
+      | .ok _ => .ok ((.op .prefixIncrement (.cons e .nil)), τ)
   | .prefixDecrement =>
     match enforceIncrement τ with
     | .error m => .error m
-    | .ok _ => .ok ((.op .prefixDecrement (.cons e .nil)), τ)
+    | .ok _ =>
+      match checkMutablePlace Γ e with
+      | .error m => .error m
+      | .ok _ => .ok ((.op .prefixDecrement (.cons e .nil)), τ)
   | .postfixIncrement =>
     match enforceIncrement τ with
     | .error m => .error m
-    | .ok _ => .ok ((.op .postfixIncrement (.cons e .nil)), unmodR)
+    | .ok _ =>
+      match checkMutablePlace Γ e with
+      | .error m => .error m
+      | .ok _ => .ok ((.op .postfixIncrement (.cons e .nil)), unmodR)
   | .postfixDecrement =>
     match enforceIncrement τ with
     | .error m => .error m
-    | .ok _ => .ok ((.op .postfixDecrement (.cons e .nil)), unmodR)
+    | .ok _ =>
+      match checkMutablePlace Γ e with
+      | .error m => .error m
+      | .ok _ => .ok ((.op .postfixDecrement (.cons e .nil)), unmodR)
   | .plus =>
     match τ.ty.layer with
     | .enum _ => .error (.unsupported "enum operand")
@@ -206,20 +290,23 @@ def elabArith (o : BinOp) (a : IExpr) (τa : ETy) (b : IExpr) (τb : ETy) : Res 
       match selectVectorRank la lb with
       | none => .error (.reject "BinaryOperationWrongTypes")
       | some dim =>
-        match find τa (Ty.mk {} (Layer.ofDim ts dim)).r with
+        match find τa (Ty.mk {} (Layer.ofDim (arithScalar ts dim) dim)).r with
         | .error m => .error (.panic m)
         | .ok none => .error (.reject "BinaryOperationWrongTypes")
         | .ok (some ca) =>
-          match find τb (Ty.mk {} (Layer.ofDim ts dim)).r with
+          match find τb (Ty.mk {} (Layer.ofDim (arithScalar ts dim) dim)).r with
           | .error m => .error (.panic m)
           | .ok none => .error (.reject "BinaryOperationWrongTypes")
           | .ok (some cb) => arithBuild o ca cb a b
     | .ok _ => .error (.unsupported "non-scalar operator type")
 
 /-- the assignment arm of `parse_expr_binop` -/
-def elabAssign (o : BinOp) (a : IExpr) (τa : ETy) (b : IExpr) (τb : ETy) : Res :=
+def elabAssign (Γ : Env) (o : BinOp) (a : IExpr) (τa : ETy) (b : IExpr) (τb : ETy) : Res :=
   if τa.ty.mod.isConst then .error (.reject "MutableRequired") else
   if τa.vt ≠ .lvalue then .error (.reject "LvalueRequired") else
+  match checkMutablePlace Γ a with
+  | .error m => .error m
+  | .ok _ =>
   match convert b τb τa.ty.r with
   | .error m => .error m
   | .ok none => .error (.reject "BinaryOperationWrongTypes")
@@ -302,7 +389,10 @@ def elabCall (Γ : Env) (name : Nat) (args : IArgs) (ts : List ETy) : Res :=
     | some s =>
       match castArgs s.params args ts with
       | .error m => .error m
-      | .ok args' => .ok ((.call id args'), s.ret.r)
+      | .ok args' =>
+        match checkOutArgs Γ s.params args' with
+        | .error m => .error m
+        | .ok _ => .ok ((.call id args'), s.ret.r)
 
 /-! ## member access, swizzles -/
 
@@ -452,7 +542,7 @@ def elabE (dbg : Bool) (Γ : Env) : SExpr → Res
   | .un o e =>
     match elabE dbg Γ e with
     | .error m => .error m
-    | .ok (e', τ) => (match elabUn o e' τ with
+    | .ok (e', τ) => (match elabUn Γ o e' τ with
       | .error m => .error m
       | .ok (n, τ') => selfCheck dbg Γ n τ')
   | .bin o a b =>
@@ -468,7 +558,7 @@ def elabE (dbg : Bool) (Γ : Env) : SExpr → Res
           | .error m => .error m
           | .ok (n, τ) => selfCheck dbg Γ n τ
         | .assign =>
-          match elabAssign o a' τa b' τb with
+          match elabAssign Γ o a' τa b' τb with
           | .error m => .error m
           | .ok (n, τ) => selfCheck dbg Γ n τ
         | .sequence => selfCheck dbg Γ (.seq a' b') τb
